@@ -140,6 +140,9 @@ package gossip
 //@   acquires 35
 //@ iface (failureDetector).Report
 //@   acquires 35
+//@   modifies-all $gReported $gReportCount
+//@   ghost-set gReported = nodeID
+//@   ghost-set gReportCount = old(gReportCount) + 1
 
 // What the watcher has been told equals what the state shows (for gNode, gKey):
 // visible = present, not deleted, not internal.
